@@ -1,4 +1,5 @@
 import GroupbyVerif.Lemmas.Ring
+import GroupbyVerif.Lemmas.RingMax
 import GroupbyVerif.Props.C08
 import GroupbyVerif.Generated.Constants
 
@@ -10,7 +11,10 @@ row's group after exactly that group's selected rows; the ring state satisfies `
 last `window` values in ring order, running sum and non-null count agree with it); hence
 rolling sum / mean equal the window reduction with the `min_periods` rule, and shift / diff
 return the value `window` group-rows earlier / the difference to it.
-Rolling min/max (`mstep`, recomputation of the extremum over the buffer) is part of the
+Rolling max / min: `Lemmas/RingMax.lean` proves the invariant `MInv` of `mstep` (the kept extremum is the extremum
+of the window's non-null values: incremental while filling, replaced by a better value, otherwise recomputed by a
+scan of the circular buffer, which holds exactly the window) and `rolling_max_eq_window` / `rolling_min_eq_window`
+follow; `rolling_shift_diff_eq_window` covers shift and diff.  (Earlier note:) rolling min/max (`mstep`) is part of the
 executable model and tied by correspondence only — *partial*.
 -/
 
@@ -96,6 +100,84 @@ theorem rolling_mean_eq_window (k : Kind) (w minp : Nat) (hw : 0 < w) (rows : Li
   simp only [rollOut, specRollAt, hinv.sum, hinv.nn, sumNN_eq, cntNN_eq]
   simp
 
+/-- **rolling max / min**: at every selected row, the greatest / least non-null value among the last `window`
+selected rows of the same group (null unless ≥ `min_periods` ≥ 1 of them are non-null) - through the
+incremental update, the replacement by a better value and the recomputation from the circular buffer -/
+theorem rolling_extremum_eq_window (k : Kind) (wantMax : Bool) (w minp : Nat) (hw : 0 < w) (hminp : 0 < minp) (rows : List CRow)
+    (hwf : ∀ r ∈ rows, WF k r.val) (i : Nat) (r : CRow)
+    (hi : rows[i]? = some r) (hg : 0 ≤ r.code) (hs : r.sel = true) :
+    (rolling k (if wantMax then .max else .min) w minp rows)[i]? =
+      some (some (specRollAt k (if wantMax then .max else .min) w minp (selVals (rows.take (i + 1)) r.code))) := by
+  unfold rolling
+  rw [rollGo_at k _ w minp _ rows i r hi hg hs]
+  have hstep : rollStep k (if wantMax then RollOp.max else RollOp.min) w = mstep k w wantMax := by
+    funext s v; cases wantMax <;> rfl
+  simp only [hstep]
+  have hhist : selVals (rows.take (i + 1)) r.code = selVals (rows.take i) r.code ++ [r.val] := selVals_take_succ rows i r hi hs
+  have hwfh : ∀ x ∈ selVals (rows.take i) r.code ++ [r.val], WF k x := by
+    intro x hx
+    rw [← hhist] at hx
+    unfold selVals at hx
+    obtain ⟨r', hr', rfl⟩ := List.mem_map.mp hx
+    exact hwf r' ((List.take_sublist _ _).subset (List.mem_filter.mp hr').1)
+  have hinv := minv_fold k w wantMax hw (selVals (rows.take i) r.code ++ [r.val]) hwfh
+  rw [List.foldl_append] at hinv
+  simp only [List.foldl_cons, List.foldl_nil] at hinv
+  rw [hhist]
+  have hlen := nnInts_length k (lastN w (selVals (rows.take i) r.code ++ [r.val]))
+  have hout : ∀ (op : RollOp), (op = .max ∨ op = .min) → (op = .max → wantMax = true) → (op = .min → wantMax = false) →
+      rollOut k op w minp ((selVals (rows.take i) r.code).foldl (mstep k w wantMax) (rinit k w))
+        (mstep k w wantMax ((selVals (rows.take i) r.code).foldl (mstep k w wantMax) (rinit k w)) r.val) r.val =
+      specRollAt k op w minp (selVals (rows.take i) r.code ++ [r.val]) := by
+    intro op hop h1 h2
+    have hnn := hinv.nn
+    have hcnt : ((nnInts k (lastN w (selVals (rows.take i) r.code ++ [r.val]))).length : Int)
+        = (mstep k w wantMax ((selVals (rows.take i) r.code).foldl (mstep k w wantMax) (rinit k w)) r.val).nn := by
+      rw [hnn, hlen]
+    have hspec_len : ((nonNull k (lastN w (selVals (rows.take i) r.code ++ [r.val]))).map valInt).length
+        = (nnInts k (lastN w (selVals (rows.take i) r.code ++ [r.val]))).length := rfl
+    by_cases hge : (mstep k w wantMax ((selVals (rows.take i) r.code).foldl (mstep k w wantMax) (rinit k w)) r.val).nn ≥ (minp : Int)
+    · have hne : nnInts k (lastN w (selVals (rows.take i) r.code ++ [r.val])) ≠ [] := by
+        intro hc
+        rw [hc] at hcnt
+        simp at hcnt
+        omega
+      obtain ⟨m, hm1, hm2⟩ := hinv.best hne
+      have hext := (extremum_isExt wantMax _ m).mpr hm2
+      have hge' : (nnInts k (lastN w (selVals (rows.take i) r.code ++ [r.val]))).length ≥ minp := by omega
+      rcases hop with rfl | rfl
+      · have := h1 rfl; subst this
+        simp only [rollOut, specRollAt, hge, if_true, hm1]
+        unfold nnInts at hext hge'
+        simp only [hext, ge_iff_le, hge', if_true]
+      · have := h2 rfl; subst this
+        simp only [rollOut, specRollAt, hge, if_true, hm1]
+        unfold nnInts at hext hge'
+        simp only [hext, ge_iff_le, hge', if_true]
+    · have hlt : ¬ (nnInts k (lastN w (selVals (rows.take i) r.code ++ [r.val]))).length ≥ minp := by omega
+      rcases hop with rfl | rfl
+      · simp only [rollOut, specRollAt, hge, if_false]
+        unfold nnInts at hlt
+        simp only [ge_iff_le, hlt, if_false]
+      · simp only [rollOut, specRollAt, hge, if_false]
+        unfold nnInts at hlt
+        simp only [ge_iff_le, hlt, if_false]
+  cases wantMax
+  · simp only [Bool.false_eq_true, if_false]
+    rw [hout .min (Or.inr rfl) (by intro h; cases h) (by intro _; rfl)]
+  · simp only [if_true]
+    rw [hout .max (Or.inl rfl) (by intro _; rfl) (by intro h; cases h)]
+
+theorem rolling_max_eq_window (k : Kind) (w minp : Nat) (hw : 0 < w) (hminp : 0 < minp) (rows : List CRow)
+    (hwf : ∀ r ∈ rows, WF k r.val) (i : Nat) (r : CRow) (hi : rows[i]? = some r) (hg : 0 ≤ r.code) (hs : r.sel = true) :
+    (rolling k .max w minp rows)[i]? = some (some (specRollAt k .max w minp (selVals (rows.take (i + 1)) r.code))) := by
+  simpa using rolling_extremum_eq_window k true w minp hw hminp rows hwf i r hi hg hs
+
+theorem rolling_min_eq_window (k : Kind) (w minp : Nat) (hw : 0 < w) (hminp : 0 < minp) (rows : List CRow)
+    (hwf : ∀ r ∈ rows, WF k r.val) (i : Nat) (r : CRow) (hi : rows[i]? = some r) (hg : 0 ≤ r.code) (hs : r.sel = true) :
+    (rolling k .min w minp rows)[i]? = some (some (specRollAt k .min w minp (selVals (rows.take (i + 1)) r.code))) := by
+  simpa using rolling_extremum_eq_window k false w minp hw hminp rows hwf i r hi hg hs
+
 /-- the slot about to be overwritten holds the value `window` group-rows earlier -/
 theorem slot_is_kth_previous (k : Kind) (w : Nat) (hw : 0 < w) (hist : List Val) (hge : w ≤ hist.length) :
     let s := hist.foldl (rstep k w) (rinit k w)
@@ -114,6 +196,42 @@ theorem shift_null_until_window (k : Kind) (w : Nat) (hw : 0 < w) (hist : List V
     (hist.foldl (rstep k w) (rinit k w)).nSeen < w := by
   have inv := rinv_fold k w hw hist
   rw [inv.seen]; omega
+
+/-- **shift / diff** (float view: null = NaN): at every selected row the value `window` selected rows of the same
+group earlier (null before there are that many), resp. the difference to it (null if either side is null) -/
+theorem rolling_shift_diff_eq_window (op : RollOp) (hop : op = .shift ∨ op = .diff) (w minp : Nat) (hw : 0 < w) (rows : List CRow)
+    (i : Nat) (r : CRow) (hi : rows[i]? = some r) (hg : 0 ≤ r.code) (hs : r.sel = true) :
+    (rolling .f op w minp rows)[i]? = some (some (specRollAt .f op w minp (selVals (rows.take (i + 1)) r.code))) := by
+  unfold rolling
+  rw [rollGo_at .f op w minp _ rows i r hi hg hs]
+  have hstep : rollStep .f op w = rstep .f w := by
+    funext s v; rcases hop with rfl | rfl <;> rfl
+  simp only [hstep]
+  rw [selVals_take_succ rows i r hi hs]
+  generalize selVals (rows.take i) r.code = hist
+  have inv := rinv_fold .f w hw hist
+  have hlen : (hist ++ [r.val]).length = hist.length + 1 := by simp
+  by_cases hge : w ≤ hist.length
+  · obtain ⟨h1, h2⟩ := slot_is_kth_previous .f w hw hist hge
+    have hgt : (hist ++ [r.val]).length > w := by omega
+    have hidx : (hist ++ [r.val]).length - 1 - w = hist.length - w := by omega
+    have hget : (hist ++ [r.val]).getD (hist.length - w) Val.nan = hist[hist.length - w]'(by omega) := by
+      have hlt' : hist.length - w < hist.length := by omega
+      simp [List.getD, List.getElem?_append_left hlt', List.getElem?_eq_getElem hlt']
+    have hlast : (hist ++ [r.val]).getD ((hist ++ [r.val]).length - 1) Val.nan = r.val := by
+      simp [List.getD]
+    rcases hop with rfl | rfl
+    · simp only [rollOut, specRollAt, h1, if_true, h2, hgt, hidx, hget]
+      cases hist[hist.length - w]'(by omega) <;> simp [isNull, valInt]
+    · simp only [rollOut, specRollAt, h1, if_true, h2, hgt, hidx, hget, hlast]
+      cases hv : r.val <;> cases ho : hist[hist.length - w]'(by omega) <;> simp [isNull, valInt, Val.sub]
+  · have hlt : hist.length < w := by omega
+    have hns := shift_null_until_window .f w hw hist hlt
+    have hngt : ¬ (hist ++ [r.val]).length > w := by omega
+    have hnge : ¬ (hist.foldl (rstep .f w) (rinit .f w)).nSeen ≥ w := by omega
+    rcases hop with rfl | rfl
+    · simp only [rollOut, specRollAt, hnge, if_false, hngt]
+    · simp only [rollOut, specRollAt, hnge, if_false, hngt]
 
 /-- source facts the model relies on: the loops skip null keys; the ring counters are wide enough
 for every window below 2^15 (the dtype the source allocates, extracted by the translator) -/
